@@ -63,6 +63,7 @@ def run(ck):
     r5(ck, F)
     r6(ck, F)
     r7(ck, F)
+    r7_drop(ck, F)
     r8(ck, F)
     # a handle's clone/close/enter/exit reach the collector that issued the id only if every collector wrapper in between
     # forwards them (C09.R1/R2 restricted to the lifecycle methods, instantiated here)
@@ -522,6 +523,40 @@ def r7(ck, F):
                 ck.ok("C03.R7", key, fn=path)
             else:
                 ck.bad("C03.R7", key, where(b.raw["sp"]), msg, fn=path)
+
+
+def r7_drop(ck, F, rid="C03.R7"):
+    """The inner value of an Instrumented is dropped by hand (ManuallyDrop) inside the wrapper's Drop so that its
+    destructors run inside the span. pin-project-lite puts the user's drop body into a nested `__drop_inner` function:
+    whichever body holds the ManuallyDrop::drop call must enter the span first -- on every path -- and keep the guard until
+    the inner drop has finished, unwinding included."""
+    found = 0
+    for b in F.body_list:
+        if b.crate not in ("tracing", "tracing_futures") or "Instrumented<T>>::drop" not in b.path and "PinnedDrop" not in b.path:
+            continue
+        inner_calls = [(bb, t) for bb, t in b.calls() if t["callee"].get("path", "").endswith("ManuallyDrop::<T>::drop")]
+        if not inner_calls:
+            continue
+        found += 1
+        key = "Drop for %s::Instrumented drops the inner value inside the span" % b.crate
+        enters = [(bb, t) for bb, t in b.calls() if t["callee"].get("path") == SP + "Span::enter"]
+        ok, msg = len(enters) == 1 and len(inner_calls) == 1, "expected exactly one Span::enter and one inner drop"
+        if ok:
+            ebb, et = enters[0]
+            ibb = inner_calls[0][0]
+            drops = drop_blocks(b, et["dest"]["l"])
+            if not b.dominates(ebb, ibb):
+                ok, msg = False, "the inner drop is not dominated by Span::enter: on some path (an ambient test such as thread::panicking(), a flag) the inner value's destructors run outside the span"
+            elif dropped_on_all_exits(b, ibb, drops):
+                ok, msg = False, "the Entered guard is not held until the inner drop has finished on every returning and unwinding path"
+            elif any(b.dominates(d, ibb) for d in drops if not b.blocks[d].get("cleanup")):
+                ok, msg = False, "the Entered guard is dropped before the inner value"
+        if ok:
+            ck.ok(rid, key, fn=b.path)
+        else:
+            ck.bad(rid, key, where(b.raw["sp"]), msg, fn=b.path)
+    if not found:
+        ck.bad(rid, "Drop for Instrumented drops the inner value by hand", "tracing/src/instrument.rs", "no body of Instrumented's Drop calls ManuallyDrop::drop")
 
 
 def r8(ck, F):
